@@ -319,6 +319,18 @@ c12_scan!(c12_int_f3, parse_int_off, [], 0, [1, 1, 1], 3, 3, INT_A, 4, MB_DIGIT,
 c12_scan!(c12_int_mb, parse_int_off, [], 0, [1, 1, 2], 3, 4, INT_A, 4, MB_DIGIT, false, 6);
 c12_scan!(c12_int_mb3, parse_int_off, [], 0, [1, 3, 1], 3, 5, INT_A, 4, MB_DIGIT, false, 7);
 
+
+// ---- small instances: a robustness layer.  When a change to the code under test makes the larger
+// instances too expensive to decide (time / memory caps -> inconclusive), these still finish.
+c12_ws!(c12_ws_f2, [], 0, [1, 1], 2, 2, WS_A2, 7, false, 4);
+c10_ws!(c10_ws_f1, [], 0, [1], 1, 1, WS_A2, 7, false, 3, false);
+c10_ws!(c10_ws_f2, [], 0, [1, 1], 2, 2, WS_A2, 7, false, 4, false);
+c12_scan!(c12_string_f2, parse_string_off, [], 0, [1, 1], 2, 2, STR_A, 6, MB_PLAIN, false, 4);
+c12_scan!(c12_action_b2, yp::parse_action, [b'{'], 1, [1, 1], 2, 3, ACT_A, 5, MB_PLAIN, true, 5);
+c12_scan!(c12_eol_f2, yp::parse_to_eol, [], 0, [1, 1], 2, 2, EOL_A, 3, MB_LINE, false, 4);
+c12_scan!(c12_colon_f2, yp::parse_to_single_colon, [], 0, [1, 1], 2, 2, COL_A, 5, MB_COLON, false, 4);
+c12_scan!(c12_int_f2, parse_int_off, [], 0, [1, 1], 2, 2, INT_A, 4, MB_DIGIT, false, 4);
+
 /// parse_int::<usize> on 20 / 21 symbolic digits: a value past usize::MAX is an error, never a
 /// panic or a wrapped number.
 macro_rules! c12_int_big {
